@@ -3,33 +3,64 @@
 #include "h4v_err.h"
 
 /* allocator stub (malloc/calloc are callees outside the unit): allocation succeeds unless the
-   harness switches fault injection on (g_alloc_may_fail), then each call may return NULL */
+   harness switches fault injection on (g_alloc_may_fail), then each call may return NULL.
+   Under cbmc the three object kinds of mcache.c are allocated with their struct type (same
+   size, no padding added): an untyped malloc(sizeof(BKT) + pagesize) is a byte array to cbmc and
+   every queue pointer stored in it is lost to its points-to analysis (no answer in 5 min). */
+#include "mcache_priv.h"
+#define PGSZ 8
 typedef unsigned char h4v_u8;
 H4V_DECL_ND(int32);
 H4V_DECL_ND(int);
 H4V_DECL_ND(h4v_u8);
+struct h4v_bktpage {
+    BKT   b;
+    uint8 page[PGSZ];
+};
 static int g_alloc_may_fail;
 static void *
 h4v_malloc(size_t n)
 {
+    void *p;
     if (g_alloc_may_fail) {
         H4V_ND(int, alloc_fails);
         if (alloc_fails)
             return NULL;
     }
-    void *p = malloc(n);
+#ifdef H4V_CBMC
+    __CPROVER_assert(sizeof(struct h4v_bktpage) == sizeof(BKT) + PGSZ, "typed bucket+page object has exactly the requested size");
+    /* __CPROVER_allocate never yields NULL: pointers stay plain addresses for cbmc's constant
+       propagation (with "p = malloc(); assume(p != NULL)" every queue pointer is an
+       if-then-else with NULL and the symbolic execution does not finish) */
+    if (n == sizeof(L_ELEM))
+        p = __CPROVER_allocate(sizeof(L_ELEM), 0);
+    else if (n == sizeof(BKT) + PGSZ)
+        p = __CPROVER_allocate(sizeof(struct h4v_bktpage), 0);
+    else
+        p = __CPROVER_allocate(n, 0);
+#else
+    p = malloc(n);
+#endif
     H4V_ASSUME(p != NULL);
     return p;
 }
 static void *
 h4v_calloc(size_t a, size_t b)
 {
+    void *p;
     if (g_alloc_may_fail) {
         H4V_ND(int, alloc_fails);
         if (alloc_fails)
             return NULL;
     }
-    void *p = calloc(a, b);
+#ifdef H4V_CBMC
+    if (a == 1 && b == sizeof(MCACHE))
+        p = __CPROVER_allocate(sizeof(MCACHE), 1);
+    else
+        p = __CPROVER_allocate(a * b, 1);
+#else
+    p = calloc(a, b);
+#endif
     H4V_ASSUME(p != NULL);
     return p;
 }
@@ -56,7 +87,6 @@ h4v_calloc(size_t a, size_t b)
 #ifndef MAXCACHE
 #define MAXCACHE 2 /* cache sizes 1..MAXCACHE (bound) */
 #endif
-#define PGSZ 2
 
 static uint8 g_disk[NPG + 1][PGSZ];
 static uint8 g_model[NPG + 1][PGSZ];
@@ -121,8 +151,14 @@ mk_cache(void)
     H4V_HAVOC(int32, g_q);
     H4V_ND(int32, maxcache);
     H4V_ND(int32, npages);
+#ifdef EXACT /* one run per (cache size, page count): keeps the heap small */
+    H4V_ASSUME(maxcache == MAXCACHE && npages == NPG);
+    maxcache = MAXCACHE;
+    npages   = NPG;
+#else
     H4V_ASSUME(maxcache >= 1 && maxcache <= MAXCACHE);
     H4V_ASSUME(npages >= 1 && npages <= NPG);
+#endif
     H4V_ASSUME(g_q >= 1 && g_q <= npages);
     g_npages   = npages;
     g_fail_out = 0;
@@ -190,11 +226,9 @@ static uint8 *g_hold[NPG + 1]; /* pages the application currently holds pinned *
 /* one application step on page p: get it if not held; then keep it, put it back clean, or modify
    it and put it back dirty */
 static void
-app_step(MCACHE *mp)
+app_step_on(MCACHE *mp, int32 p)
 {
-    H4V_ND(int32, p);
     H4V_ND(int, op_kind);
-    H4V_ASSUME(p >= 1 && p <= g_npages);
     H4V_ASSUME(op_kind >= 0 && op_kind <= 2);
     if (g_hold[p] == NULL) {
         int    was_cached = count_bkt(mp, p);
@@ -243,6 +277,22 @@ app_step(MCACHE *mp)
     H4V_CHECK(count_bkt(mp, g_q) <= 1, "at most one bucket per page number in the lru queue");
     H4V_CHECK(count_hash_bkt(mp, g_q) == count_bkt(mp, g_q), "hash chain and lru queue agree");
     H4V_CHECK(count_lelem(mp, g_q) == 1, "exactly one list element per page number");
+}
+
+/* the page number is a constant in each branch (hash keys become constants for cbmc) */
+static void
+app_step(MCACHE *mp)
+{
+    H4V_ND(int32, p);
+    H4V_ASSUME(p >= 1 && p <= g_npages);
+    if (p == 1)
+        app_step_on(mp, 1);
+    else if (p == 2)
+        app_step_on(mp, 2);
+    else if (p == 3)
+        app_step_on(mp, 3);
+    else
+        app_step_on(mp, p);
 }
 
 void
